@@ -221,6 +221,18 @@ func Eval(c Case) (problems []string, planErr string, nstmts int) {
 		tt.AddColumns(schema.NewIntColumn("id", "integer"), schema.NewEnumColumn("mood", schema.EnumName("mood"), schema.EnumValues("a", "b"), schema.EnumSchema(other)))
 		changes = []schema.Change{&schema.AddTable{T: tt}}
 		wantErr = true
+	case "fk_to_other_schema":
+		// a table of this schema with a foreign key to a table of another schema: written without the
+		// qualifier, the reference would name a table of this schema.
+		other := schema.New("other_schema")
+		parent := schema.NewTable("parent").SetSchema(other).AddColumns(schema.NewIntColumn("id", "int"))
+		parent.SetPrimaryKey(schema.NewPrimaryKey(parent.Columns[0]))
+		other.AddTables(parent)
+		tt := schema.NewTable("tx").SetSchema(to)
+		tt.AddColumns(schema.NewIntColumn("id", "int"), schema.NewIntColumn("pid", "int"))
+		tt.AddForeignKeys(schema.NewForeignKey("tx_parent").AddColumns(tt.Columns[1]).SetRefTable(parent).AddRefColumns(parent.Columns[0]))
+		changes = []schema.Change{&schema.AddTable{T: tt}}
+		wantErr = true
 	case "add_schema":
 		changes = []schema.Change{&schema.AddSchema{S: to}, &schema.AddTable{T: dfu.T(to, "u")}}
 		wantErr = true
@@ -285,7 +297,7 @@ func cases(tier string) []Case {
 	for _, d := range []*dfu.Dialect{dfu.MySQL, dfu.Postgres} {
 		for _, q := range quals {
 			for _, m := range modes {
-				for _, k := range []string{"create_all", "drop_all", "two_schemas", "two_schemas_drop_modify", "enum_in_other_schema", "add_schema", "drop_schema", "modify_schema"} {
+				for _, k := range []string{"create_all", "drop_all", "two_schemas", "two_schemas_drop_modify", "enum_in_other_schema", "fk_to_other_schema", "add_schema", "drop_schema", "modify_schema"} {
 					cs = append(cs, Case{d.Name, k, nil, q, m})
 				}
 				es := dfu.Edits(d)
